@@ -69,6 +69,10 @@ class Violation(Exception):
     pass
 
 
+
+class InprocUnavailable(Exception):
+    """The in-process harness does not build on the current tree (see Check.build_harness)."""
+
 class Check:
     def __init__(self, prop, tier, seed):
         self.prop = prop
@@ -198,6 +202,30 @@ class Check:
                 os.utime(os.path.join(d, "src", "main.rs"), None)
             else:
                 sh(["cargo", "clean", "--release", "--offline", "-p", "assert-struct", "-p", "assert-struct-macros"], cwd=d)
+        if name == "inproc":
+            # the token-level tool first: it depends on syn / proc-macro2 only and must always build (the specification side is fed from it)
+            rc, out, err = sh(["cargo", "build", "--release", "--offline", "--bin", "toks"], cwd=d, timeout=3600)
+            if rc != 0:
+                raise RuntimeError("cargo build of the token tool (harness inproc, bin toks) failed:\n%s" % err[-6000:])
+            rc, out, err = sh(["cargo", "build", "--release", "--offline", "--bin", "inproc"], cwd=d, timeout=3600)
+            if rc != 0:
+                # The harness's AST printer mirrors the macro crate's own pattern types: a change to those types stops it from compiling.
+                # That breaks the ties that run the real parser / generator in process (T1, T2) - reported once, as a broken correspondence -
+                # but not the checks' other parts (compiled programs, runtime harness), which go on and may still find a failing input.
+                try:
+                    os.remove(os.path.join(CACHE, "target", "inproc", "release", "inproc"))
+                except OSError:
+                    pass
+                self.inproc_broken = err[-3000:]
+                if not getattr(self, "_inproc_reported", False):
+                    self._inproc_reported = True
+                    self.report("corr:inproc-harness-build", "the in-process harness no longer compiles against the macro crate's sources: the ties that run the real parser and code generator in process (T1, T2) cannot be evaluated",
+                                dict(broken="correspondences T1 / T2 (harness/inproc: its AST printer mirrors the macro crate's pattern types)", rustc=err[-3000:]), no_input=True)
+                open(stamp, "w").write(h)
+                return os.path.join(CACHE, "target", name, "release")
+            self.inproc_broken = None
+            open(stamp, "w").write(h)
+            return os.path.join(CACHE, "target", name, "release")
         rc, out, err = sh(["cargo", "build", "--release", "--offline"], cwd=d, timeout=3600)
         if rc != 0:
             raise RuntimeError("cargo build of harness %s failed:\n%s" % (name, err[-6000:]))
@@ -224,6 +252,14 @@ class Check:
         return res
 
     def rt_batch(self, lines, binary="rt", harness="rt", cwd=None, env=None, profile="release"):
+        if harness == "inproc":
+            # token-level requests go to the stand-alone tool; the rest needs the real parser / generator in process
+            if lines and all(l.startswith(("toks ", "ptoks ")) for l in lines):
+                binary = "toks"
+            elif getattr(self, "inproc_broken", None):
+                # the real parser / generator cannot be run in process on this tree: every request is answered `unavailable`
+                # (callers skip their comparison; the broken tie itself was reported by build_harness)
+                return ["unavailable" if l.startswith("run ") else "lexerr" for l in lines]
         exe = os.path.join(CACHE, "target", harness, profile, binary)
         rc, out, err = sh([exe], inp="\n".join(lines) + "\n", timeout=3600, cwd=cwd, env=env)
         if rc != 0:
